@@ -123,17 +123,19 @@ enum Leaf {
     Gen(Generic<Fd>),
     Raw { fd: Fd, token: Option<Token> },
     Tim(calloop::timer::Timer),
+    /// the leaf has been taken out of the source (`Generic::unwrap`)
+    Gone,
 }
 
 struct Composite {
-    leaves: Vec<Leaf>,
+    leaves: Rc<std::cell::RefCell<Vec<Leaf>>>,
+    registered: Rc<std::cell::RefCell<Vec<bool>>>,
     want_rereg: Rc<Cell<bool>>,
     /// indices of the leaves whose callback ran
     ran: Rc<std::cell::RefCell<Vec<usize>>>,
     /// leaves that are still part of the source (a retired leaf is unregistered at the next re-registration and takes
     /// no token any more, so the leaves after it move to lower sub-ids)
     active: Rc<std::cell::RefCell<Vec<bool>>>,
-    registered: Vec<bool>,
 }
 
 impl Composite {
@@ -153,6 +155,7 @@ impl Composite {
                     tm.reregister(poll, tf)
                 }
             }
+            Leaf::Gone => Ok(()),
             Leaf::Raw { fd, token } => {
                 let t = tf.token();
                 if fresh {
@@ -169,6 +172,7 @@ impl Composite {
         match leaf {
             Leaf::Gen(g) => g.unregister(poll),
             Leaf::Tim(tm) => tm.unregister(poll),
+            Leaf::Gone => Ok(()),
             Leaf::Raw { fd, token } => {
                 poll.unregister(fd.as_fd())?;
                 *token = None;
@@ -189,8 +193,10 @@ impl EventSource for Composite {
         F: FnMut((), &mut ()),
     {
         let ran = self.ran.clone();
-        for (i, leaf) in self.leaves.iter_mut().enumerate() {
+        let mut leaves = self.leaves.borrow_mut();
+        for (i, leaf) in leaves.iter_mut().enumerate() {
             match leaf {
+                Leaf::Gone => {}
                 Leaf::Gen(g) => {
                     g.process_events(r, t, |_, f| {
                         let mut b = [0u8; 8];
@@ -222,10 +228,11 @@ impl EventSource for Composite {
 
     fn register(&mut self, poll: &mut Poll, tf: &mut TokenFactory) -> calloop::Result<()> {
         let active = self.active.borrow().clone();
-        for (i, leaf) in self.leaves.iter_mut().enumerate() {
+        let mut registered = self.registered.borrow_mut();
+        for (i, leaf) in self.leaves.borrow_mut().iter_mut().enumerate() {
             if active[i] {
                 Composite::reg_leaf(leaf, poll, tf, true)?;
-                self.registered[i] = true;
+                registered[i] = true;
             }
         }
         Ok(())
@@ -233,23 +240,25 @@ impl EventSource for Composite {
 
     fn reregister(&mut self, poll: &mut Poll, tf: &mut TokenFactory) -> calloop::Result<()> {
         let active = self.active.borrow().clone();
-        for (i, leaf) in self.leaves.iter_mut().enumerate() {
+        let mut registered = self.registered.borrow_mut();
+        for (i, leaf) in self.leaves.borrow_mut().iter_mut().enumerate() {
             if active[i] {
-                Composite::reg_leaf(leaf, poll, tf, !self.registered[i])?;
-                self.registered[i] = true;
-            } else if self.registered[i] {
+                Composite::reg_leaf(leaf, poll, tf, !registered[i])?;
+                registered[i] = true;
+            } else if registered[i] {
                 Composite::unreg_leaf(leaf, poll)?;
-                self.registered[i] = false;
+                registered[i] = false;
             }
         }
         Ok(())
     }
 
     fn unregister(&mut self, poll: &mut Poll) -> calloop::Result<()> {
-        for (i, leaf) in self.leaves.iter_mut().enumerate() {
-            if self.registered[i] {
+        let mut registered = self.registered.borrow_mut();
+        for (i, leaf) in self.leaves.borrow_mut().iter_mut().enumerate() {
+            if registered[i] {
                 Composite::unreg_leaf(leaf, poll)?;
-                self.registered[i] = false;
+                registered[i] = false;
             }
         }
         Ok(())
@@ -268,8 +277,8 @@ fn composite(leaves: &str, ops: &str) -> String {
     let ran = Rc::new(std::cell::RefCell::new(Vec::new()));
     let active = Rc::new(std::cell::RefCell::new(vec![true; leaves.len()]));
     let has_timer = leaves.contains('t');
-    let src = Composite {
-        leaves: leaves
+    let leafv: Rc<std::cell::RefCell<Vec<Leaf>>> = Rc::new(std::cell::RefCell::new(
+        leaves
             .chars()
             .zip(fds.iter())
             .map(|(c, fd)| match c {
@@ -278,10 +287,14 @@ fn composite(leaves: &str, ops: &str) -> String {
                 _ => Leaf::Raw { fd: fd.clone(), token: None },
             })
             .collect(),
+    ));
+    let registered = Rc::new(std::cell::RefCell::new(vec![false; leaves.len()]));
+    let src = Composite {
+        leaves: leafv.clone(),
+        registered: registered.clone(),
         want_rereg: want_rereg.clone(),
         ran: ran.clone(),
         active: active.clone(),
-        registered: vec![false; leaves.len()],
     };
     let kinds: Vec<char> = leaves.chars().collect();
     let token = match el.handle().insert_source(src, |_, _, _| {}) {
@@ -330,6 +343,19 @@ fn composite(leaves: &str, ops: &str) -> String {
                 let mut a = active.borrow_mut();
                 if let Some(i) = a.iter().position(|x| *x) {
                     a[i] = false;
+                }
+            }
+            // the first active `Generic` leaf is taken out of the source and unwrapped while it is still registered
+            // (`Generic::unwrap` gives the fd back: it must leave the poller, as on drop)
+            "unwrap" => {
+                let mut a = active.borrow_mut();
+                let mut lv = leafv.borrow_mut();
+                if let Some(i) = (0..kinds.len()).find(|i| a[*i] && matches!(lv[*i], Leaf::Gen(_))) {
+                    if let Leaf::Gen(g) = std::mem::replace(&mut lv[i], Leaf::Gone) {
+                        let _fd = g.unwrap();
+                    }
+                    a[i] = false;
+                    registered.borrow_mut()[i] = false;
                 }
             }
             "rereg" => {
